@@ -5,9 +5,9 @@ CONSTANTS
   Delegators = {"D1", "D2"}
   Specs = {"S1", "S2"}
   Plans = {"PL1", "PL2"}
-  MaxOps = 70
+  MaxOps = 60
   GenHist = TRUE
-  FixRenew = FALSE
+  FixRenew = TRUE
   Bias = "stake"
   T0 = 2264761
   H0 = 50
